@@ -179,6 +179,9 @@ func Concrete(x int) int { return x }
 
 // Cut ends the path as outside the claim.
 func Cut(label string) {
+	if label == "" {
+		label = "cut"
+	}
 	panic(AssumeFailed{label})
 }
 
